@@ -291,8 +291,42 @@ def c04_shift(R):
 # ----------------------------------------------------------------------------- C05 / C06 / C07 on Base.__new__
 
 
+_NEW_ROLES = (
+    "a_args = args if type(args) is tuple else tuple(args)",
+    "b_args = tuple(a for a in a_args if isinstance(a, Base))",
+    "arg_max_depth = max((a.depth for a in b_args), default=0)",
+    "r = operations._handle_annotations(claripy.backends.concrete._abstract(claripy.backends.concrete.call(op, args)), args)",
+    "uneliminatable_annotations = frozenset(a for a in annotations if not (a.eliminatable or a.relocatable))",
+    "relocatable_annotations = frozenset(a for a in annotations if not a.eliminatable and a.relocatable)",
+    "for a in b_args: ...",
+    "hash_ = Base._calc_hash(op, a_args, annotations, length)",
+    "self = cls._hash_cache.get(hash_, None)",
+    "depth = arg_max_depth + 1",
+)
+
+
+_MAKE_LIKE_ROLES = (
+    "simplified, annotated = claripy.simplifications.simplify(op, args) if simplify else (None, False)",
+    "cache = type(self)._hash_cache",
+    "h = Base._calc_hash(op, args, annotations, length)",
+    "cached_ast = cast('T | None', cache.get(h, None))",
+    "result: T = super().__new__(type(self))",
+    "all_operations = operations.leaf_operations_symbolic",
+)
+
+
+def _make_like(tree):
+    if not hasattr(tree, "_canon_make_like"):
+        tree._canon_make_like = util.canonicalise(tree.func(BASE, "Base.make_like"), _MAKE_LIKE_ROLES)[0]
+    return tree._canon_make_like
+
+
 def _new(tree):
-    return tree.func(BASE, "Base.__new__")
+    """Base.__new__ with its locals named by role (the reference statements above identify them), so that the checks
+    below do not depend on what the locals happen to be called"""
+    if not hasattr(tree, "_canon_new"):
+        tree._canon_new = util.canonicalise(tree.func(BASE, "Base.__new__"), _NEW_ROLES)[0]
+    return tree._canon_new
 
 
 @rule(
@@ -307,38 +341,48 @@ def c05_stored(R):
     tree = R.tree
     m = tree.mod(BASE)
     fn = _new(tree)
-    # single definitions of a_args / b_args
+    # names are found structurally: A = what is stored as the node's args, B = the AST children among A
+    inits0 = [c for c in _calls(fn) if (dotted(c.func) or "").endswith("__a_init__")]
+    R.need(len(inits0) == 1 and len(inits0[0].args) >= 2 and isinstance(inits0[0].args[1], ast.Name), "Base.__new__: __a_init__(op, <args name>, ...) not found")
+    A = inits0[0].args[1].id
     defs = {}
     for st in walk_no_nested(fn):
         if isinstance(st, ast.Assign) and isinstance(st.targets[0], ast.Name):
             defs.setdefault(st.targets[0].id, []).append(st)
-    for nm in ("a_args", "b_args"):
-        R.check(len(defs.get(nm, [])) == 1, m, fn, f"{nm} has a single definition", f"{nm} is assigned {len(defs.get(nm, []))} times",
-                construct=f"Base.__new__: {nm} single definition")
-    if "a_args" in defs:
+    B = None
+    for nm, ds in defs.items():
+        for d in ds:
+            for g in ast.walk(d.value):
+                if isinstance(g, (ast.GeneratorExp, ast.ListComp)) and len(g.generators) == 1 and ast.unparse(g.generators[0].iter) == A:
+                    tests = " ".join(ast.unparse(t) for t in g.generators[0].ifs)
+                    if "isinstance" in tests and "Base" in tests and ast.unparse(g.elt) == ast.unparse(g.generators[0].target):
+                        B = nm
+    R.need(B is not None, f"Base.__new__: the tuple of AST children of `{A}` not found")
+    for nm, role in ((A, "stored args"), (B, "AST children")):
+        R.check(len(defs.get(nm, [])) == 1, m, fn, f"{role} have a single definition", f"the {role} (`{nm}`) are assigned {len(defs.get(nm, []))} times",
+                construct=f"Base.__new__: {role} single definition")
+    if A in defs:
         R.check(
-            util.depends_on(defs["a_args"][0].value, {"args"}, None),
+            util.depends_on(defs[A][0].value, {"args"}, None),
             m,
-            defs["a_args"][0],
-            "a_args is the caller's args as a tuple",
-            f"a_args is `{norm(defs['a_args'][0].value)}`",
-        )
-    if "b_args" in defs:
-        v = defs["b_args"][0].value
-        R.check(
-            "a_args" in ast.unparse(v) and "isinstance" in ast.unparse(v) and "Base" in ast.unparse(v),
-            m,
-            defs["b_args"][0],
-            "b_args = the AST children among a_args",
-            f"b_args is `{norm(v)}`; it must be every AST child of a_args",
+            defs[A][0],
+            "stored args are the caller's args as a tuple",
+            f"the stored args are `{norm(defs[A][0].value)}`",
+            construct="Base.__new__: stored args from the caller's args",
         )
     # derived metadata
-    want = {"symbolic": "a.symbolic for a in b_args", "variables": "a.variables for a in b_args", "arg_max_depth": "a.depth for a in b_args"}
-    def _derives(d, nm, frag):
-        """The derivation ranges over *all* of b_args with the aggregator the field needs."""
+    want = {"symbolic": "symbolic", "variables": "variables", "arg_max_depth": "depth"}
+
+    def _derives(d, nm, attr):
+        """The derivation ranges over *all* AST children with the aggregator the field needs."""
         gens = [g for g in ast.walk(d.value) if isinstance(g, (ast.GeneratorExp, ast.ListComp))]
         if not any(
-            len(g.generators) == 1 and ast.unparse(g.generators[0].iter) == "b_args" and not g.generators[0].ifs and frag.split(" for ")[0] == ast.unparse(g.elt)
+            len(g.generators) == 1
+            and ast.unparse(g.generators[0].iter) == B
+            and not g.generators[0].ifs
+            and isinstance(g.elt, ast.Attribute)
+            and g.elt.attr == attr
+            and ast.unparse(g.elt.value) == ast.unparse(g.generators[0].target)
             for g in gens
         ):
             return False
@@ -347,20 +391,20 @@ def c05_stored(R):
             return isinstance(d.value, ast.Call) and dotted(d.value.func) == agg
         return True
 
-    for nm, frag in want.items():
-        ds = [d for d in defs.get(nm, []) if frag in ast.unparse(d.value) and _derives(d, nm, frag)]
+    for nm, attr in want.items():
+        ds = [d for d in defs.get(nm, []) if _derives(d, nm, attr)]
         R.check(
             len(ds) == 1,
             m,
             fn,
-            f"{nm} derived from the children (b_args)",
-            f"{nm} is no longer derived as `{frag}`: the node's {nm} can disagree with its children",
-            construct=f"Base.__new__: {nm} from b_args",
+            f"{nm} derived from the children",
+            f"{nm} is no longer derived as `<child>.{attr}` over all AST children: the node's {nm} can disagree with its children",
+            construct=f"Base.__new__: {nm} from the AST children",
         )
     # the defaulted derivations only apply when the caller passed None
     for nm in ("symbolic", "variables"):
         for d in defs.get(nm, []):
-            if "b_args" in ast.unparse(d.value):
+            if B in {x.id for x in ast.walk(d.value) if isinstance(x, ast.Name)}:
                 facts = [(ast.unparse(t), pol) for t, pol in guards.guards_of(d)]
                 R.check(
                     (f"{nm} is None", True) in facts,
@@ -400,7 +444,7 @@ def c05_stored(R):
             continue
         if after and isinstance(st, ast.Assign):
             for t in st.targets:
-                if isinstance(t, ast.Name) and t.id in ("op", "a_args", "annotations", "length"):
+                if isinstance(t, ast.Name) and t.id in ("op", A, "annotations", "length"):
                     R.bad(m, st, f"`{t.id}` is reassigned after it was hashed and before it is stored")
     # depth = deepest child + 1
     dk = util.kw(i, "depth")
@@ -443,7 +487,7 @@ def c05_stored(R):
 def c05_fast(R):
     tree = R.tree
     m = tree.mod(BASE)
-    ml = tree.func(BASE, "Base.make_like")
+    ml = _make_like(tree)
     # the fast-path condition
     fast = None
     for st in ml.body:
@@ -584,7 +628,7 @@ def c05_override(R):
         construct="_flatten_simplifier variables",
     )
     # make_like forwards overrides only for leaf-like ops
-    ml = tree.func(BASE, "Base.make_like")
+    ml = _make_like(tree)
     # the op set for which the receiver's metadata is reused contains leaf ops only (ops without AST arguments)
     ao = [st for st in walk_no_nested(ml) if isinstance(st, ast.Assign) and ast.unparse(st.targets[0]) == "all_operations"]
     R.need(len(ao) == 1, "make_like: `all_operations` not found")
@@ -751,11 +795,10 @@ def c06_key(R):
             construct=f"_ast_serialize uses {f}",
         )
     # each argument / annotation is delimited (no concatenation ambiguity)
-    txt = ast.unparse(ser)
-    R.check("b'<' + Base._arg_serialize(a) + b'>'" in txt and "b'(' + Base._arg_serialize(a) + b')'" in txt, m, ser,
+    R.check(util.has_frag(ser, "(b'<' + Base._arg_serialize(a) + b'>' for a in args)", ser) and util.has_frag(ser, "(b'(' + Base._arg_serialize(a) + b')' for a in annotations)", ser), m, ser,
             "arguments and annotations are individually delimited", "arguments/annotations are no longer delimited in the serialization",
             construct="_ast_serialize delimiters")
-    red = tree.func(BASE, "Base.__reduce__")
+    red = util.inline_aliases(tree.func(BASE, "Base.__reduce__"), lambda v: True)  # named intermediates are fine
     dd = tree.func(BASE, "_d")
     rret = [r for r in walk_no_nested(red) if isinstance(r, ast.Return)][0].value
     R.need(isinstance(rret, ast.Tuple) and len(rret.elts) == 2 and isinstance(rret.elts[1], ast.Tuple), "__reduce__ shape changed")
@@ -765,30 +808,36 @@ def c06_key(R):
     R.check(ast.unparse(inner[0]) == "self._hash", m, red, "__reduce__ pickles the hash", "__reduce__ no longer pickles self._hash")
     unpack = [st for st in dd.body if isinstance(st, ast.Assign) and isinstance(st.targets[0], ast.Tuple)]
     R.need(len(unpack) == 1, "_d no longer unpacks the state tuple")
-    names = [ast.unparse(e) for e in unpack[0].targets[0].elts]
+    locals_ = [ast.unparse(e) for e in unpack[0].targets[0].elts]
     R.check(
-        names == fields and set(fields) >= {"op", "args", "length", "annotations"},
+        len(locals_) == len(fields) and set(fields) >= {"op", "args", "length", "annotations"} and fields[:2] == ["op", "args"],
         m,
         unpack[0],
-        f"_d unpacks {fields} in the order __reduce__ stores them",
-        f"__reduce__ stores {fields} but _d unpacks {names}",
+        f"_d unpacks as many values as __reduce__ stores ({fields})",
+        f"__reduce__ stores {fields} but _d unpacks {len(locals_)} values ({locals_})",
+        construct="_d unpack arity",
     )
+    # the i-th unpacked local holds the i-th pickled field, whatever it is called
+    held = dict(zip(locals_, fields))
+    names = fields
     newc = [c for c in _calls(dd) if (dotted(c.func) or "").endswith("__new__")]
     R.need(len(newc) == 1, "_d no longer calls cls.__new__")
     c = newc[0]
-    pos = [ast.unparse(a) for a in c.args[1:3]]
-    R.check(pos == ["op", "args"], m, c, "_d passes op, args positionally", f"_d passes {pos} as op, args")
+    pos = [held.get(ast.unparse(a), ast.unparse(a)) for a in c.args[1:3]]
+    R.check(pos == ["op", "args"], m, c, "_d passes op, args positionally", f"_d passes the pickled {pos} as op, args", construct="_d positional op, args")
     for f in names[2:]:
         k = util.kw(c, f)
         R.check(
-            k is not None and ast.unparse(k) == f,
+            k is not None and held.get(ast.unparse(k)) == f,
             m,
             c,
-            f"_d passes {f}={f}",
-            f"_d passes {f}=`{norm(k) if k is not None else None}`: an unpickled node gets another node's {f}",
+            f"_d passes {f}=<the pickled {f}>",
+            f"_d passes {f}=`{held.get(ast.unparse(k), ast.unparse(k)) if k is not None else None}`: an unpickled node gets another node's {f}",
+            construct=f"_d keyword {f}",
         )
     hk = util.kw(c, "hash")
-    R.check(hk is not None and ast.unparse(hk) == "h", m, c, "_d passes the pickled hash", "_d does not pass hash=h")
+    hparam = positional_params(dd)[0] if positional_params(dd) else None
+    R.check(hk is not None and ast.unparse(hk) == hparam, m, c, "_d passes the pickled hash", "_d does not pass the pickled hash as hash=", construct="_d hash")
     extra_kw = sorted(k.arg or "**" for k in c.keywords if k.arg not in set(names) | {"hash"})
     R.check(
         not extra_kw,
@@ -799,10 +848,10 @@ def c06_key(R):
         f"(e.g. without inheriting its children's annotation sets), so it behaves differently under later rewriting",
     )
     # every field of the pickled state is forwarded (none is dropped on the floor)
-    for f in names:
-        used = any(isinstance(x, ast.Name) and x.id == f for a in list(c.args) + [k.value for k in c.keywords] for x in ast.walk(a))
+    for loc, f in held.items():
+        used = any(isinstance(x, ast.Name) and x.id == loc for a in list(c.args) + [k.value for k in c.keywords] for x in ast.walk(a))
         R.check(used, m, c, f"_d forwards the pickled {f}", f"_d unpacks `{f}` from the pickled state but never passes it on: the "
-                f"rebuilt node recomputes or loses it")
+                f"rebuilt node recomputes or loses it", construct=f"_d forwards {f}")
 
 
 @rule(
@@ -819,6 +868,10 @@ def c06_bypass(R):
     for mm, q, fn in tree.all_functions():
         if not mm.path.startswith("claripy/ast/") and mm.path not in (SIMP, OPS, ITE, REPL):
             continue
+        if mm.path == BASE and q == "Base.__new__":
+            fn = _new(tree)  # locals named by role
+        elif mm.path == BASE and q == "Base.make_like":
+            fn = _make_like(tree)
         for c in (x for x in walk_no_nested(fn) if isinstance(x, ast.Call)):
             f = c.func
             if isinstance(f, ast.Attribute) and f.attr == "__new__" and isinstance(f.value, ast.Call) and dotted(f.value.func) == "super":
@@ -1081,14 +1134,13 @@ def c07_fold(R):
     "or the shortcut is refused",
 )
 def c07_if(R):
+    from .ast_tables import _canonical_if
+
     tree = R.tree
     m = tree.mod(BOOLAST)
-    fn = tree.func(BOOLAST, "If")
+    fn = _canonical_if(tree)  # locals named by role: args = [cond, then, else], ty = the node class
     n = 0
-    for st in fn.body:
-        if not (isinstance(st, ast.If) and st.body and isinstance(st.body[-1], ast.Return)):
-            continue
-        ret = st.body[-1]
+    for ret in (x for x in walk_no_nested(fn) if isinstance(x, ast.Return)):
         if ret.value is None:
             continue
         v = ret.value
@@ -1112,8 +1164,9 @@ def c07_if(R):
                 whole.add(x.slice.value)
         # arguments known to be the bare literals true()/false() carry no annotations
         literal = set()
-        for t, pol in guards._split_bool(st.test, True):
-            if pol and isinstance(t, ast.Compare) and isinstance(t.ops[0], ast.Is) and ast.unparse(t.comparators[0]) in ("true()", "false()"):
+        held = [t for t, pol in guards.guards_of(ret) if pol]
+        for t in held:
+            if isinstance(t, ast.Compare) and isinstance(t.ops[0], ast.Is) and ast.unparse(t.comparators[0]) in ("true()", "false()"):
                 lt = t.left
                 if isinstance(lt, ast.Subscript) and isinstance(lt.value, ast.Name) and lt.value.id == "args" and isinstance(lt.slice, ast.Constant):
                     literal.add(lt.slice.value)
@@ -1123,7 +1176,7 @@ def c07_if(R):
             m,
             ret,
             "shortcut keeps every argument whole (or drops only bare literals)",
-            f"If() returns `{norm(v)}` under `{norm(st.test)}` without _handle_annotations although argument(s) "
+            f"If() returns `{norm(v)}` under `{' and '.join(ast.unparse(t) for t in held)}` without _handle_annotations although argument(s) "
             f"{dropped} (or parts of them) do not survive in the result: their non-eliminatable annotations must "
             f"veto the rewrite and their relocatable ones must move to the result, but are silently lost",
         )
@@ -1334,18 +1387,30 @@ def c08_ite(R):
     tree = R.tree
     m = tree.mod(BOOLAST)
     ic = tree.func(BOOLAST, "ite_cases")
-    loop = [st for st in ic.body if isinstance(st, ast.For)][0]
-    R.check("reversed(" in ast.unparse(loop.iter), m, loop, "ite_cases walks the cases from last to first",
-            "ite_cases no longer walks the cases in reverse (the first matching case must win)")
-    asg = [st for st in ast.walk(loop) if isinstance(st, ast.Assign) and ast.unparse(st.targets[0]) == "sofar"]
-    tgt = [ast.unparse(e) for e in loop.target.elts]
+    loops = [st for st in ic.body if isinstance(st, ast.For)]
+    R.need(len(loops) == 1 and isinstance(loops[0].target, ast.Tuple) and len(loops[0].target.elts) == 2, "ite_cases: loop over (condition, value) pairs not found")
+    loop = loops[0]
+    b = {}  # local-name bindings shared by the fragments below (code name -> reference name)
+    R.need(util.alpha_eq(loop.target, "(c, v)", ic, b), "ite_cases: loop target is not a (condition, value) pair")
     R.check(
-        len(asg) == 1 and ast.unparse(asg[0].value) == f"If({tgt[0]}, {tgt[1]}, sofar)",
+        util.has_frag(loop.iter, "reversed(list(cases))", ic) or util.has_frag(loop.iter, "reversed(cases)", ic),
         m,
         loop,
-        "ite_cases: If(cond, value, accumulated-else)",
-        f"ite_cases builds `{norm(asg[0].value) if asg else None}`",
+        "ite_cases walks the cases from last to first",
+        "ite_cases no longer walks the cases in reverse (the first matching case must win)",
+        construct="ite_cases iteration order",
     )
+    built = [st for st in ast.walk(loop) if isinstance(st, ast.Assign) and isinstance(st.value, ast.Call) and (dotted(st.value.func) or "").split(".")[-1] == "If"]
+    R.check(
+        len(built) == 1 and util.alpha_eq(built[0], "sofar = If(c, v, sofar)", ic, b),
+        m,
+        loop,
+        "ite_cases: acc = If(cond, value, acc)",
+        f"ite_cases builds `{norm(built[0]) if built else None}`; it has to put the case's value in the then-branch and everything accumulated so far in the else-branch",
+        construct="ite_cases fold step",
+    )
+    inv = {v: k for k, v in b.items()}
+    acc, cnd, val = inv.get("sofar"), inv.get("c"), inv.get("v")
     # a case may be dropped only when its value equals what the expression would yield without it, i.e. the
     # accumulated else-branch (not the default: an earlier case with the default's value still shadows later ones)
     for st in (x for x in ast.walk(loop) if isinstance(x, (ast.Continue, ast.Break))):
@@ -1355,10 +1420,10 @@ def c08_ite(R):
             inner = t.args[0] if isinstance(t, ast.Call) and (dotted(t.func) or "").split(".")[-1] == "is_true" and t.args else t
             if pol and isinstance(inner, ast.Compare) and len(inner.ops) == 1 and isinstance(inner.ops[0], (ast.Eq, ast.Is)):
                 sides = {ast.unparse(inner.left), ast.unparse(inner.comparators[0])}
-                if sides == {tgt[1], "sofar"}:
+                if acc is not None and sides == {val, acc}:
                     ok = True
             # the other sound idiom: the case can never apply
-            if pol and isinstance(t, ast.Call) and (dotted(t.func) or "").split(".")[-1] == "is_false" and t.args and ast.unparse(t.args[0]) == tgt[0]:
+            if pol and isinstance(t, ast.Call) and (dotted(t.func) or "").split(".")[-1] == "is_false" and t.args and ast.unparse(t.args[0]) == cnd:
                 ok = True
         R.check(
             ok and isinstance(st, ast.Continue),
@@ -1366,58 +1431,88 @@ def c08_ite(R):
             st,
             "ite_cases skips a case only when its value equals the accumulated else-branch",
             f"ite_cases drops a case under {[('' if p else 'not ') + ast.unparse(t) for t, p in facts]}: only a value equal to "
-            f"the accumulated else-branch (`sofar`) can be skipped; skipping on any other test lets a later overlapping "
+            f"the accumulated else-branch can be skipped; skipping on any other test lets a later overlapping "
             f"case answer where an earlier one should",
             construct="ite_cases skip condition",
         )
-    init = [st for st in ic.body if isinstance(st, ast.Assign) and ast.unparse(st.targets[0]) == "sofar"]
-    R.check(init and ast.unparse(init[0].value) == "default", m, ic, "ite_cases starts from the default", "ite_cases no longer starts from `default`",
+    # the same shape with the skip folded into the condition: `if not is_true(v == acc): acc = If(...)`
+    if built and not any(isinstance(x, (ast.Continue, ast.Break)) for x in ast.walk(loop)):
+        for t, pol in guards.guards_of(built[0], stop=loop):
+            inner = t.args[0] if isinstance(t, ast.Call) and (dotted(t.func) or "").split(".")[-1] == "is_true" and t.args else t
+            good = not pol and isinstance(inner, ast.Compare) and len(inner.ops) == 1 and isinstance(inner.ops[0], (ast.Eq, ast.Is)) and {ast.unparse(inner.left), ast.unparse(inner.comparators[0])} == {val, acc}
+            good = good or (not pol and isinstance(t, ast.Call) and (dotted(t.func) or "").split(".")[-1] == "is_false" and t.args and ast.unparse(t.args[0]) == cnd)
+            R.check(
+                bool(good),
+                m,
+                built[0],
+                "ite_cases keeps every case except those equal to the accumulated else-branch",
+                f"ite_cases adds a case only under `{('' if pol else 'not ') + ast.unparse(t)}`: only a value equal to the accumulated else-branch can be skipped",
+                construct="ite_cases skip condition",
+            )
+    init = [st for st in ic.body if isinstance(st, ast.Assign) and isinstance(st.targets[0], ast.Name) and st.targets[0].id == acc]
+    R.check(bool(init) and ast.unparse(init[0].value) == "default", m, ic, "ite_cases starts from the default", "ite_cases no longer starts from `default`",
             construct="ite_cases default")
+    rets = [r for r in walk_no_nested(ic) if isinstance(r, ast.Return)]
+    R.check(len(rets) == 1 and ast.unparse(rets[0].value) == acc, m, ic, "ite_cases returns the accumulated expression", "ite_cases no longer returns the accumulated expression", construct="ite_cases result")
     idf = tree.func(BOOLAST, "ite_dict")
-    txt = ast.unparse(idf)
+    bd = {}
     R.check(
-        "if c <= split_val" in txt and "if c > split_val" in txt and "return If(i <= split_val, valLow, valHigh)" in txt,
+        util.has_frag(idf, "dictLow = {c: v for c, v in d.items() if c <= split_val}", idf, bd, share={"dictLow", "split_val"})
+        and util.has_frag(idf, "dictHigh = {c: v for c, v in d.items() if c > split_val}", idf, bd, share={"dictHigh", "split_val"})
+        and util.has_frag(idf, "valLow = ite_dict(i, dictLow, default)", idf, bd)
+        and util.has_frag(idf, "valHigh = ite_dict(i, dictHigh, default)", idf, bd)
+        and util.has_frag(idf, "return If(i <= split_val, valLow, valHigh)", idf, bd),
         m,
         idf,
         "ite_dict: keys <= pivot go to the then-branch of `i <= pivot`",
         "ite_dict partitions the keys with a different comparison than the If it builds",
+        construct="ite_dict partition",
     )
-    R.check("ite_cases([(i == c, v) for c, v in d.items()], default)" in txt, m, idf, "ite_dict small case: equality per key",
+    R.check(util.has_frag(idf, "ite_cases([(i == c, v) for c, v in d.items()], default)", idf), m, idf, "ite_dict small case: equality per key",
             "ite_dict small-table fallback changed", construct="ite_dict linear fallback")
     rv = tree.func(BOOLAST, "reverse_ite_cases")
-    apps = [c for c in _calls(rv) if isinstance(c.func, ast.Attribute) and c.func.attr == "append" and "And(" in ast.unparse(c)]
-    got = sorted(ast.unparse(c.args[0]) for c in apps)
+    apps = [c for c in _calls(rv) if isinstance(c.func, ast.Attribute) and c.func.attr == "append" and c.args and "And(" in ast.unparse(c)]
+    br = {}
+    ok_then = any(util.alpha_eq(c.args[0], "(And(condition, ast.args[0]), ast.args[1])", rv, br) for c in apps)
+    ok_else = any(util.alpha_eq(c.args[0], "(And(condition, Not(ast.args[0])), ast.args[2])", rv, br) for c in apps)
     R.check(
-        got == sorted(["(And(condition, ast.args[0]), ast.args[1])", "(And(condition, Not(ast.args[0])), ast.args[2])"]),
+        len(apps) == 2 and ok_then and ok_else,
         m,
         rv,
         "reverse_ite_cases: cond -> then branch, Not(cond) -> else branch",
-        f"reverse_ite_cases pairs {got}",
+        f"reverse_ite_cases pairs {sorted(ast.unparse(c.args[0]) for c in apps)}",
+        construct="reverse_ite_cases pairing",
     )
     mi = tree.mod(ITE)
     ex = tree.func(ITE, "_excavate_ite")
-    arms = []
+    be = {}
+    arms = {}
     for st in ast.walk(ex):
-        if isinstance(st, ast.If) and isinstance(st.test, ast.Compare) and isinstance(st.test.ops[0], ast.Is) and ast.unparse(st.test.left) == "a.args[0]":
-            rel = ast.unparse(st.test.comparators[0])
-            t_ = [ast.unparse(c.args[0]) for c in _calls(ast.Module(body=st.body, type_ignores=[])) if isinstance(c.func, ast.Attribute) and c.func.attr == "append"]
-            recv = [ast.unparse(c.func.value) for c in _calls(ast.Module(body=st.body, type_ignores=[])) if isinstance(c.func, ast.Attribute) and c.func.attr == "append"]
-            arms.append((rel, dict(zip(recv, t_))))
-    want = {"cond": {"new_true_args": "a.args[1]", "new_false_args": "a.args[2]"}, "~cond": {"new_true_args": "a.args[2]", "new_false_args": "a.args[1]"}}
-    for rel, mp in arms:
-        if rel in want:
-            R.check(
-                mp == want[rel],
-                mi,
-                ex,
-                f"_excavate_ite: inner condition `is {rel}` -> {want[rel]}",
-                f"_excavate_ite: for an inner If whose condition is {rel} the branches go to {mp}",
-                construct=f"_excavate_ite arm {rel}",
-            )
-    R.need({r for r, _ in arms} >= {"cond", "~cond"}, "_excavate_ite: condition-matching arms not found")
-    built = [c for c in _calls(ex) if dotted(c.func) == "claripy.If" and len(c.args) == 3 and ast.unparse(c.args[0]) == "cond"]
+        if isinstance(st, ast.If) and isinstance(st.test, ast.Compare) and len(st.test.ops) == 1 and isinstance(st.test.ops[0], ast.Is):
+            for rel, pat in (("cond", "a.args[0] is cond"), ("~cond", "a.args[0] is ~cond")):
+                if util.alpha_eq(st.test, pat, ex, be):
+                    arms[rel] = st
+    R.need(set(arms) >= {"cond", "~cond"}, "_excavate_ite: condition-matching arms not found")
+    want = {
+        "cond": ("new_true_args.append(a.args[1])", "new_false_args.append(a.args[2])"),
+        "~cond": ("new_true_args.append(a.args[2])", "new_false_args.append(a.args[1])"),
+    }
+    for rel, st in arms.items():
+        body = ast.Module(body=st.body, type_ignores=[])
+        R.check(
+            all(util.has_frag(body, frag, ex, be) for frag in want[rel]),
+            mi,
+            st,
+            f"_excavate_ite: inner condition `is {rel}` -> {want[rel]}",
+            f"_excavate_ite: for an inner If whose condition is {rel} the branches are distributed as `{norm(st)[:160]}`",
+            construct=f"_excavate_ite arm {rel}",
+        )
+    inv_e = {v: k for k, v in be.items()}
+    built = [c for c in _calls(ex) if dotted(c.func) == "claripy.If" and len(c.args) == 3 and ast.unparse(c.args[0]) == inv_e.get("cond")]
     R.check(
-        len(built) == 1 and "new_true_args" in ast.unparse(built[0].args[1]) and "new_false_args" in ast.unparse(built[0].args[2]),
+        len(built) == 1
+        and inv_e.get("new_true_args") in {x.id for x in ast.walk(built[0].args[1]) if isinstance(x, ast.Name)}
+        and inv_e.get("new_false_args") in {x.id for x in ast.walk(built[0].args[2]) if isinstance(x, ast.Name)},
         mi,
         ex,
         "_excavate_ite: If(cond, op(true args), op(false args))",
